@@ -16,20 +16,17 @@ rule, the forget and refetch tests, the reschedule guard, `maxDuration`) are `Ge
 regenerated from fetcher.go on every run.
 
 * Safety, full strength: `C16_requests_sound` (all runs, all oracle answers).
-* Liveness. The property's bound rests on three facts proved here for all runs:
-  `C16_timer_armed` (whenever something is announced the timer is armed with a deadline at most
-  `ArriveTimeout` after the last event — this is what DESIGN §7-D3 broke, witness
-  `D3_old_rule_leaves_timer_unarmed`), `C16_fire_requests_pending` (the timer event requests every
-  item that is pending), `C16_deadline_kept_while_fetching` (notifications and receipts do not move
-  the deadline while any request is outstanding). Together: an item announced at `t` while
-  requests are outstanding, or announced unsuspended (requested at once), is requested by
-  `t + ArriveTimeout` (+ timer latency) and then at least every `ArriveTimeout`.
-  NOT proved, because it is false for the code: the same bound for an item announced while
-  suspended when `fetching` is empty — each later unsuspended notification that finds `fetching`
-  empty re-arms the timer to `now + ArriveTimeout` (`rearm_postpones_pending_item`); the delay is
-  then bounded by the number of such notifications (defect candidate, reported to the lead).
-  Go timer and scheduler latency are outside the model (DESIGN §4); the stream `fetch` checks the
-  real fetcher against the model with 2·ArriveTimeout + 300 ms slack.
+* Liveness: `C16_pending_requested` — from any state of a run (timer-armed invariant
+  `C16_timer_armed`: whenever something is announced the timer is armed with a deadline at most
+  `ArriveTimeout` after the last event), through any notifications and receipts
+  (`C16_deadline_kept`: they never move an armed deadline), the timer event comes by
+  `t0 + ArriveTimeout + lat` and requests every pending item (`C16_fire_requests_pending`).
+  Constant proved: `ArriveTimeout` + timer latency after the announcement, independent of
+  suspension — stronger than the property's `2·ArriveTimeout` after max(announce, unsuspend).
+  Negative witnesses for the two earlier arming rules: `D3_old_rule_leaves_timer_unarmed`,
+  `previous_rule_postpones_pending_item`.
+  Go timer and scheduler latency are outside the model (parameter `lat`; DESIGN §4); the stream
+  `fetch` checks the real fetcher against the model with 2·ArriveTimeout + 300 ms slack.
 -/
 namespace C16
 open Model.Fetcher
@@ -664,20 +661,86 @@ theorem C16_fire_requests_pending (cfg : Cfg) (now : Nat) (intr : List Nat) (pic
   obtain ⟨q, hq, _, hid⟩ := groupByPeer_complete _ id p hmem
   exact ⟨q, hq, hid⟩
 
-/-- **The deadline is not postponed while something is being fetched**: a notification that
-    finds announcements and a non-empty `fetching` leaves the timer as it is (and receipts never
-    touch it, `received_timer`). -/
-theorem C16_deadline_kept_while_fetching (cfg : Cfg) (now peer annT : Nat) (acc : List Nat) (susp : Bool) (st : St)
-    (ha : st.announces ≠ []) (hf : st.fetching ≠ []) :
-    (notify cfg now peer annT acc susp st).1.timer = st.timer := by
+/-- **A notification never moves an armed deadline**: if anything is announced already (so the
+    timer is armed, `C16_timer_armed`), the notification leaves the timer as it is; receipts
+    never touch it (`received_timer`). -/
+theorem C16_deadline_kept (cfg : Cfg) (now peer annT : Nat) (acc : List Nat) (susp : Bool) (st : St)
+    (ha : st.announces ≠ []) : (notify cfg now peer annT acc susp st).1.timer = st.timer := by
   have h1 : st.announces.length ≠ 0 := by simpa using ha
-  have h2 : st.fetching.length ≠ 0 := by simpa using hf
   unfold notify
   simp only
   split
   · rfl
-  · rw [if_neg (by simp [Gen.Fetcher.armTimer, Gen.Fetcher.isFirst, Gen.Fetcher.noAnnounces, h1, h2])]
+  · rw [if_neg (by simp [Gen.Fetcher.armTimer, Gen.Fetcher.noAnnounces, h1])]
     exact announceAll_timer ..
+
+/-- no timer event among the operations -/
+def NoFire : List Op → Prop
+  | [] => True
+  | .timerFire .. :: _ => False
+  | _ :: rest => NoFire rest
+
+/-- something stays announced in every state the operations go through -/
+def KeepsAnnounced (cfg : Cfg) : St → List Op → Prop
+  | st, [] => st.announces ≠ []
+  | st, op :: rest => st.announces ≠ [] ∧ KeepsAnnounced cfg (step cfg st op).1 rest
+
+theorem timer_kept (cfg : Cfg) (st : St) (mid : List Op) (hn : NoFire mid) (hk : KeepsAnnounced cfg st mid) :
+    (runSt cfg st mid).timer = st.timer := by
+  induction mid generalizing st with
+  | nil => rfl
+  | cons op rest ih =>
+    cases op with
+    | timerFire => exact absurd hn (by simp [NoFire])
+    | notify now peer annT acc susp =>
+      have := ih (step cfg st (.notify now peer annT acc susp)).1 hn hk.2
+      simp only [runSt, List.foldl_cons] at this ⊢
+      rw [this]
+      exact C16_deadline_kept cfg now peer annT acc susp st hk.1
+    | received now ids =>
+      have := ih (step cfg st (.received now ids)).1 hn hk.2
+      simp only [runSt, List.foldl_cons] at this ⊢
+      rw [this]
+      exact received_timer ids st
+
+/-- **Every pending item is requested within `ArriveTimeout` (+ timer latency).** Logical time;
+    `lat` bounds how late the Go runtime delivers the timer event after its deadline.
+    Let `st` be any state in which the timer-armed invariant holds at time `t0` — by
+    `C16_timer_armed` every state of a run, in particular the one right after the item's
+    announcement was handled, suspended or not. Let notifications and receipts follow (any
+    number, any oracle answers) during which something stays announced, and let the timer event
+    come at `tf`, at most `lat` after the armed deadline. Then `tf ≤ t0 + ArriveTimeout + lat`,
+    and every item that is then announced, reported interesting, not older than `ForgetTimeout`
+    and not requested during the last `ArriveTimeout - GatherSlack` (`Pending`) is requested in
+    that event. The property's bound `max(announce, unsuspend) + 2·ArriveTimeout` follows with
+    room to spare: suspension does not delay the timer path at all, so the constant proved is
+    `1·ArriveTimeout + lat` after the announcement. (An item that is not `Pending.due` has a
+    `fetching` entry younger than `ArriveTimeout - GatherSlack`, `not_due_recently_fetched`;
+    `fetching` entries are written only where a request is issued, in `announceAll` and
+    `refetchAll` — this last link is by inspection of the two definitions, not a theorem.) -/
+theorem C16_pending_requested (cfg : Cfg) (st : St) (t0 : Nat) (mid : List Op) (tf lat : Nat)
+    (intr : List Nat) (pick : Nat → Nat) (id : Nat)
+    (harm : Armed cfg st t0) (hn : NoFire mid) (hk : KeepsAnnounced cfg st mid)
+    (htimely : ∀ d, (runSt cfg st mid).timer = some d → tf ≤ d + lat)
+    (hint : id ∈ intr) (hp : Pending cfg tf (runSt cfg st mid) id) :
+    tf ≤ t0 + cfg.arrive + lat ∧ ∃ q ∈ (timerFire cfg tf intr pick (runSt cfg st mid)).2, id ∈ q.ids := by
+  have hne : st.announces ≠ [] := by cases mid with
+    | nil => exact hk
+    | cons _ _ => exact hk.1
+  obtain ⟨d, hd, hle⟩ := harm hne
+  have hkept := timer_kept cfg st mid hn hk
+  have := htimely d (by rw [hkept]; exact hd)
+  exact ⟨by omega, C16_fire_requests_pending cfg tf intr pick _ id hint hp⟩
+
+theorem not_due_recently_fetched (cfg : Cfg) (now : Nat) (st : St) (id : Nat)
+    (h : needsFetch cfg now st.fetching id = false) :
+    ∃ v, fget st.fetching id = some v ∧ now - v.2 ≤ cfg.arrive - cfg.gather := by
+  unfold needsFetch at h
+  split at h
+  · cases h
+  · rename_i v hv
+    refine ⟨v, hv, ?_⟩
+    simpa [Gen.Fetcher.refetch] using h
 
 /-! ### non-vacuity and the repaired defect (DESIGN §7-D3) -/
 
@@ -704,15 +767,26 @@ theorem D3_old_rule_leaves_timer_unarmed :
 example : (notify cfg1 5000 2 5000 [7, 8] false {}).2 = [⟨2, [7, 8]⟩] ∧
     (received [7] (notify cfg1 5000 2 5000 [7, 8] false {}).1).announces.map (·.id) = [8] := by decide
 
-/-- **Defect candidate (reported, not repaired)**: a notification that finds `fetching` empty
-    re-arms the timer although an older announcement (item 7, announced while suspended, due at
-    105 ms) is waiting: its request moves to 190 ms after item 9 is announced at 90 ms. After
-    item 9 is received the same can happen again, so the delay of item 7 is not bounded by a
-    multiple of `ArriveTimeout` (only by `ForgetTimeout`). -/
-theorem rearm_postpones_pending_item :
-    let s1 := (notify cfg1 5000 1 5000 [7] true {}).1
-    let s2 := (notify cfg1 90000 2 90000 [9] false s1).1
+/-- **The re-arm defect, before its repair** (`notifyPrev`, the rule
+    `(first && len(fetching) != 0) || (noAnnounces && …)`): a notification that found `fetching`
+    empty re-armed the timer although an older announcement (item 7, announced while suspended,
+    due at 105 ms) was waiting: its request moved to 190 ms when item 9 was announced at 90 ms,
+    and again to 280 ms after item 9 was received and item 10 announced — without bound. -/
+theorem previous_rule_postpones_pending_item :
+    let s1 := (notifyPrev cfg1 5000 1 5000 [7] true {}).1
+    let s2 := (notifyPrev cfg1 90000 2 90000 [9] false s1).1
     s1.timer = some 105000 ∧ s2.timer = some 190000 ∧
     (received [9] s2).fetching = [] ∧
-    (notify cfg1 180000 2 180000 [10] false (received [9] s2)).1.timer = some 280000 := by decide
+    (notifyPrev cfg1 180000 2 180000 [10] false (received [9] s2)).1.timer = some 280000 := by decide
+
+/-- the repaired rule keeps the deadline of item 7 through the same events -/
+example :
+    let s1 := (notify cfg1 5000 1 5000 [7] true {}).1
+    let s2 := (notify cfg1 90000 2 90000 [9] false s1).1
+    s1.timer = some 105000 ∧ s2.timer = some 105000 ∧
+    (notify cfg1 100000 2 100000 [10] false (received [9] s2)).1.timer = some 105000 := by decide
+
+/-- non-vacuity of `C16_pending_requested`: its hypotheses hold on this run (item 7 pending at 105 ms) -/
+example : Pending cfg1 105000 (runSt cfg1 (notify cfg1 5000 1 5000 [7] true {}).1 [.notify 90000 2 90000 [9] false]) 7 :=
+  ⟨⟨⟨7, [⟨1, 5000⟩, ⟨1, 5000⟩], 1⟩, ⟨1, 5000⟩, [⟨1, 5000⟩], by decide, rfl, by decide⟩, by decide⟩
 end C16
